@@ -257,6 +257,9 @@ package coroutines
 //@ site loop 2 batch assert cmd.Kind == t_aio.UpdateTask && cmd.UpdateTask != nil && cmd.UpdateTask.Id == r.Id && cmd.UpdateTask.State == task.Timedout && now() >= r.Timeout && cmd.UpdateTask.Counter == r.Counter && cmd.UpdateTask.CurrentCounter == r.Counter && mask(cmd.UpdateTask.CurrentStates) == task.Init
 //@ site loop 3 batch assert cmd.Kind == t_aio.UpdateTask && cmd.UpdateTask != nil && cmd.UpdateTask.Id == t.Id && cmd.UpdateTask.Counter == t.Counter && cmd.UpdateTask.CurrentCounter == t.Counter && mask(cmd.UpdateTask.CurrentStates) == task.Init
 //@ site loop 3 batch assert cmd.UpdateTask.State == task.Enqueued ==> err == nil && completion.Sender.Success && decodedT.Mesg.Type != message.Notify
+// the same, stated on what the sender answered in this iteration (not on the local it is assigned to)
+//@ site loop 3 batch assert cmd.UpdateTask.State == task.Enqueued ==> itercalls("await") == 1 && iterres("await", 1) == nil && iterres("await", 0).Sender.Success
+//@ site loop 3 batch assert decodedT.Mesg.Type != message.Notify && itercalls("await") == 1 && (iterres("await", 1) != nil || !iterres("await", 0).Sender.Success) ==> cmd.UpdateTask.State == task.Init && cmd.UpdateTask.Attempt == t.Attempt + 1
 //@ site loop 3 batch assert decodedT.Mesg.Type == message.Notify ==> cmd.UpdateTask.State == task.Completed
 // the deadline until which a dispatched task waits to be claimed (or retried) is the configured delay, in the clock's unit (milliseconds)
 //@ site loop 3 batch assert [C06 C08] cmd.UpdateTask.State != task.Completed ==> cmd.UpdateTask.ExpiresAt >= now0() + config.TaskEnqueueDelay / 1000000 && cmd.UpdateTask.ExpiresAt <= now() + config.TaskEnqueueDelay / 1000000
